@@ -360,7 +360,8 @@ func inAssert(ex *Exec, c *callCtx) (Value, bool) {
 	switch r {
 	case Unsat:
 		ex.Stats.AssertHeld++
-		c.s.pcSet[t.ID] = true
+		// keep the proven fact as a lemma for later queries on this path
+		c.s.addPC(t)
 		return nil, true
 	case Unknown:
 		ex.Stats.AssertUnknown++
